@@ -167,6 +167,48 @@ impl ContinuityStreamCache {
         self.append_compaction_checkpoints_best_effort_v1(event);
     }
 
+    /// Crash recovery: `event` is the last continuity frame in the truth log. A process that died
+    /// between that frame's log append and the matching cache appends leaves caches that lag the
+    /// log (and would be served as is). Drop the thread's whole cache family in that case; it is
+    /// rebuilt from the truth log on demand.
+    pub(crate) fn remove_if_lagging_best_effort(&self, event: &Event) {
+        if event.stream_kind() != StreamKind::Continuity {
+            return;
+        }
+        let continuity_id = event.stream_id();
+        let lags = |path: PathBuf| match self.try_read_last_seq_for_sidecar_path(continuity_id, &path)
+        {
+            Ok(Some(seq)) => seq < event.seq,
+            Ok(None) => false,
+            Err(_) => true,
+        };
+        let mut lagging = lags(self.path_for(continuity_id));
+        if matches!(
+            &event.kind,
+            EventKind::ContinuityMessageAppended { .. } | EventKind::ContinuityRunEnded { .. }
+        ) {
+            lagging |= lags(self.messages_runs_path_for_v1(continuity_id));
+        }
+        if matches!(
+            &event.kind,
+            EventKind::ContinuityCompactionCheckpointCreated { .. }
+        ) {
+            lagging |= lags(self.compaction_checkpoints_path_for_v1(continuity_id));
+        }
+        if !lagging {
+            return;
+        }
+        let prefix = format!("{continuity_id}.");
+        let Ok(entries) = fs::read_dir(&self.dir) else {
+            return;
+        };
+        for entry in entries.flatten() {
+            if entry.file_name().to_string_lossy().starts_with(&prefix) {
+                let _ = fs::remove_file(entry.path());
+            }
+        }
+    }
+
     pub(crate) fn rebuild_best_effort(&self, continuity_id: &str, events: &[Event]) {
         let path = self.path_for(continuity_id);
         if let Some(parent) = path.parent() {
